@@ -393,6 +393,24 @@ func GenPeerStillWriting(r *hxlib.Rand) Scenario {
 	return s
 }
 
+// GenPeerWritesThroughClose: the sharpened form of GenPeerStillWriting. The peer writes a small frame every ~100 µs
+// from the start until well after the close and reads nothing until Close has returned; after a pause this side bursts
+// 150..300 tiny packets and closes gracefully at once. The last segments of the flushed burst are still in this
+// side's send queue when `finally` sends the FIN; a frame of the peer arrives within the next ~100 µs. If the receive
+// side was shut down by then (the unrepaired Close did CloseRead first) the Linux kernel resets the connection
+// (TcpExt TCPAbortOnData) and destroys the not yet transmitted packets: the peer reads a prefix, then end-of-stream or
+// a reset. Nearly deterministic on loopback (≈ 9 runs in 10 on the unrepaired tree).
+func GenPeerWritesThroughClose(r *hxlib.Rand) Scenario {
+	s := Scenario{Name: "peer-still-writing", Codec: r.Pick(1, 2), Cap: 1024, ICap: 8, ECap: 2, Inb: "prompt", Err: "prompt", Jitter: r.U64()}
+	if r.Chance(1, 4) {
+		s.Inb, s.ICap = "never", 2 // the reader stands parked on the undrained inbound queue meanwhile
+	}
+	s.Peer = Peer{Read: "cret", Frames: sizesOf(r, 400, 10, 40), WriteWhen: "start", Pace: r.Range(60, 120)}
+	s.Senders = []Sender{{Sizes: sizesOf(r, r.Range(150, 300), 0, 40), When: "start", Retry: 200, Burst: true, Delay: r.Range(1500, 3000)}}
+	s.Closers = []Closer{{Graceful: true, When: "senders"}}
+	return s
+}
+
 // GenStall (failing-input search; the caller sets qnet.TConnReadTimeout to 1 s): the peer stalls in the middle of a
 // frame for longer than the read timeout; the rest of the frame is itself a valid encoded message.
 func GenStall(r *hxlib.Rand) Scenario {
